@@ -165,7 +165,7 @@ HbEv ==
   /\ chk' = [CommonChk(e) EXCEPT !.hbTs = (Answered(e) => Main(e).hasTs),
                                  !.tsConst = ((Answered(e) /\ e.peer \in DOMAIN peerTs) => Main(e).ts = peerTs[e.peer])]
   /\ peerTs' = IF Answered(e) /\ e.peer \notin DOMAIN peerTs THEN Override(peerTs, [x \in {e.peer} |-> Main(e).ts]) ELSE peerTs
-  /\ last' = [ev |-> "req", kind |-> "hb", accepted |-> Answered(e), u |-> "-"]
+  /\ last' = [ev |-> "req", kind |-> IF "burst" \in DOMAIN e /\ e.burst THEN "hb-burst" ELSE "hb", accepted |-> Answered(e), u |-> "-"]
   /\ Advance
 
 AssocEv ==
@@ -212,7 +212,7 @@ ReleaseEv ==
   /\ relabel' = IF Answered(e) THEN relabel \ SessOfPeer(p) ELSE relabel
   /\ peerTs' = IF Answered(e) THEN Without(peerTs, {p}) ELSE peerTs
   /\ chk' = CommonChk(e)
-  /\ last' = [ev |-> "req", kind |-> "release", accepted |-> Answered(e), u |-> "-"]
+  /\ last' = [ev |-> "req", kind |-> IF "burst" \in DOMAIN e /\ e.burst THEN "release-burst" ELSE "release", accepted |-> Answered(e), u |-> "-"]
   /\ Advance
 
 \* the peer stayed silent past the read time-out / did not answer heartbeats: observed as "lost"
@@ -333,7 +333,7 @@ ModEv ==
                !.hdrSeid = (Answered(e) /\ ~known => m.seid = "zero"),
                !.writesNothing = (Answered(e) /\ ~known => e.cmds = cmds),
                !.markers = (Len(e.markers) = 0)]
-  /\ last' = [ev |-> "req", kind |-> "mod", accepted |-> acc /\ known, u |-> IF acc /\ known THEN u ELSE "-"]
+  /\ last' = [ev |-> "req", kind |-> IF "burst" \in DOMAIN e /\ e.burst THEN "mod-burst" ELSE "mod", accepted |-> acc /\ known, u |-> IF acc /\ known THEN u ELSE "-"]
   /\ Advance
 
 DelEv ==
@@ -360,7 +360,7 @@ DelEv ==
                            \* the UP F-SEID returned at establishment addresses the session: a deletion that names a
                            \* live session of this peer is not refused (no datapath fault is injected in these runs)
                            !.addressed = ~(Answered(e) /\ known /\ e.errs = 0)]
-  /\ last' = [ev |-> "req", kind |-> "del", accepted |-> acc /\ known, u |-> IF acc /\ known THEN u ELSE "-"]
+  /\ last' = [ev |-> "req", kind |-> IF "burst" \in DOMAIN e /\ e.burst THEN "del-burst" ELSE "del", accepted |-> acc /\ known, u |-> IF acc /\ known THEN u ELSE "-"]
   /\ Advance
 
 \* The datapath reported downlink data for session e.u; e.srr = the datagrams the peer received (Session Report
@@ -569,15 +569,21 @@ C02_FseidAddressesSession == chk.addressed
 
 \* C03
 AfterAcceptedSessionReq == last.ev = "req" /\ last.kind \in {"estab", "mod", "del"} /\ last.accepted
-C03_TablesAreImage == (AfterAcceptedSessionReq \/ last.ev = "start") => TablesAreImage(tables, sess, stale, Relaxed, tainted)
+C03_TablesAreImage == (cfg.dp # "up4" /\ (AfterAcceptedSessionReq \/ last.ev = "start")) => TablesAreImage(tables, sess, stale, Relaxed, tainted)
 C03_UnknownOrUnassociatedRejected == chk.mustReject
 C03_RejectedWritesNothing == chk.writesNothing
 C03_StartClearsLookupModules == chk.startEmpty
 
 \* C05 (BESS part): nothing of an ended session remains
-C05_NoDatapathResidue == (last.ev \in {"req", "lost", "report"}) => \A u \in ended : \A x \in tables.pdr \cup tables.far \cup tables.appQer \cup tables.sessQer : x.fseid # u \/ x \in stale \/ u \in tainted
+\* lines of a concurrent phase except its last one carry the tables / snapshot of the end of the phase
+NotBurst == last.kind \notin {"estab-burst", "mod-burst", "del-burst", "hb-burst", "release-burst"}
+C05_NoDatapathResidue == (last.ev \in {"req", "lost", "report"} /\ NotBurst) => \A u \in ended : \A x \in tables.pdr \cup tables.far \cup tables.appQer \cup tables.sessQer : x.fseid # u \/ x \in stale \/ u \in tainted
 
-C05_Applies == last.ev \in {"req", "lost", "report"}
+\* UP4: when no session is live, nothing but the interfaces entries (and the slice meter) is left in the switch
+C05_NoUp4Residue == (cfg.dp = "up4" /\ last.ev \in {"req", "lost"} /\ NotBurst /\ DOMAIN sess = {} /\ (last.kind \in {"del", "release", "-"} => last.accepted)) =>
+  LET t == tables.up4 IN
+  t.sessUL = {} /\ t.sessDL = {} /\ t.termUL = {} /\ t.termDL = {} /\ t.apps = {} /\ t.peers = {} /\ t.appMeters = {} /\ t.sessMeters = {}
+C05_Applies == last.ev \in {"req", "lost", "report"} /\ NotBurst
 \* ... and everything allocated for it is returned (read from the guarded snapshot when the line carries one)
 SnapStore == UNION {AsSet(snap.store[i].seids) : i \in 1..Len(snap.store)}
 C05_SessionRecordsForgotten == (C05_Applies /\ snap.has) => SnapStore = DOMAIN sess
